@@ -277,7 +277,14 @@ func c14Gen(t *rapid.T) c14Case {
 }
 
 func TestVerif_C14(t *testing.T) {
+	defer vfStats.dump()
 	vfTreeSnapshot()
+	if vfOnlySub("static") {
+		vfRunStatic(t, "C14", 64)
+	}
+	if t.Failed() || !vfOnlySub("machine") {
+		return
+	}
 	vfRun(t, vfSub[c14Case]{Prop: "C14", Name: "machine", Checks: vfN(8000, 3200000), Gen: c14Gen, Check: c14Check,
 		Sample: func(c c14Case) any {
 			var ops []any
